@@ -541,10 +541,28 @@ def _nontrivial(inputs):
 
 
 def _chunk_eval(chunk):
-    return [(inp, evaluate(inp)) for inp in chunk]
+    """worker: evaluate a chunk of (pairwise distinct) scenarios, return an aggregate."""
+    n_evals = n_distinct = 0
+    fails = {}
+    sample = None
+    for inp in chunk:
+        checks = evaluate(inp)
+        n_evals += len(checks)
+        if checks and _nontrivial(inp):
+            n_distinct += 1
+        if sample is None:
+            sample = {"inputs": inp, "checks": [{"case": c, "clause": cl, "ok": bool(ok), "detail": d[:160]} for c, cl, ok, d in checks[:6]]}
+        for case, clause, ok, detail in checks:
+            if not ok:
+                if case in fails:
+                    fails[case][3] += 1
+                else:
+                    fails[case] = [clause, detail, inp, 1]
+    return n_evals, n_distinct, {k: tuple(v) for k, v in fails.items()}, sample
 
 
-def _consume(rec, gen, pool=None, chunk=4000):
+def _consume(rec, gen, pool=None, chunk=4000, max_inflight=24):
+    """generators used with a pool enumerate pairwise distinct scenarios (exhaustive grids)."""
     if pool is None:
         first = True
         for inp in gen:
@@ -552,18 +570,23 @@ def _consume(rec, gen, pool=None, chunk=4000):
             first = False
         return
     buf, futs = [], []
+    first = [True]
+
+    def drain(limit):
+        while len(futs) > limit:
+            n_evals, n_distinct, fails, sample = futs.pop(0).result()
+            rec.book_summary(n_evals, n_distinct, fails, sample if first[0] else None)
+            first[0] = False
+
     for inp in gen:
         buf.append(inp)
         if len(buf) >= chunk:
             futs.append(pool.submit(_chunk_eval, buf))
             buf = []
+            drain(max_inflight)
     if buf:
         futs.append(pool.submit(_chunk_eval, buf))
-    first = True
-    for f in futs:
-        for inp, checks in f.result():
-            rec.book(checks, inp, key=_key(inp), nontrivial=_nontrivial(inp), sample=first)
-            first = False
+    drain(0)
 
 
 def run(tier, seed):
@@ -593,9 +616,10 @@ def run(tier, seed):
         rec.begin("NumberOfIntervalsSlicer, exhaustive", f"ALL vectors of length <= {Ln} over {{k*s/2, k=0..{8 if thorough else 6}}}, s in {WIDTHS} "
                   f"x n_intervals in {ns} x include_max", rule)
         if thorough:
-            # length 5 for three interval counts (1, 7, 10 cover: single interval, known edge case, decimal steps), <=4 for all
+            # length <= 4 for everything; length 5 for the decimal steps and n_intervals 3 and 7 (membership depends on (value, min, max)
+            # only, and all such triples are enumerated separately below)
             _consume(rec, gen_number_exhaustive(4, 8), pool)
-            _consume(rec, (x for x in gen_number_exhaustive(5, 8, ns=[3, 7, 10]) if len(x["data"]) == 5), pool)
+            _consume(rec, (x for x in gen_number_exhaustive(5, 8, steps=[0.1, 0.3, 0.7], ns=[3, 7]) if len(x["data"]) == 5), pool)
         else:
             _consume(rec, gen_number_exhaustive(3, 6), pool)
         kt = 16 if thorough else 12
